@@ -586,7 +586,32 @@ def _format_problem(kind, cfg, text):
         return None
     _, chx, cnt = cfg.split(":")
     pad, cnt = chr(int(chx, 16)), int(cnt)
-    for line in text.split("\n"):
+    # lines that begin INSIDE a text value (character data that is not white space only and contains line breaks) are content, not
+    # formatting: the closing tag after a text ending in "\n\t" would otherwise be mistaken for a mis-indented node
+    inside = set()
+    line_no, i, n = 0, 0, len(text)
+    while i < n:
+        if text[i] == "<":
+            j = text.find(">", i)
+            if j < 0:
+                break
+            line_no += text.count("\n", i, j + 1)
+            i = j + 1
+        else:
+            j = text.find("<", i)
+            j = n if j < 0 else j
+            seg = text[i:j]
+            if seg.strip(" \t\r\n"):
+                for k, ch in enumerate(seg):
+                    if ch == "\n":
+                        line_no += 1
+                        inside.add(line_no)
+            else:
+                line_no += seg.count("\n")
+            i = j
+    for no, line in enumerate(text.split("\n")):
+        if no in inside:
+            continue
         if not line.startswith(pad) and not line.startswith("<") and line != "":
             continue                         # continuation of a multi-line text value
         body = line.lstrip(pad)
